@@ -80,6 +80,41 @@ def CEViewOK (t : Tbl) (vr : Vrf) (v : LView) : Prop :=
     | none => none) ∧
   (∀ x, (∀ n, n ∈ t.nlris → n.2 ≠ x) → v x = none)
 
+/-! ### the VRF's view of a prefix over ALL route distinguishers (RFC 4364: one route per prefix) -/
+
+/-- the VRF's candidates for plain prefix `x`: the importable best paths of every destination (rd, x) -/
+def vrfCands (t : Tbl) (vr : Vrf) (x : Nat) : List VPath :=
+  (t.nlris.filter (fun n => n.2 == x)).filterMap (fun n =>
+    match t.best n with
+    | some b => if canImport vr b.ecs then some b else none
+    | none => none)
+
+/-- the most preferred candidate -/
+def pickBest : List VPath → Option VPath
+  | [] => none
+  | p :: r =>
+    match pickBest r with
+    | some q => if p.pref < q.pref then some q else some p
+    | none => some p
+
+/-- full strength: for every prefix the VRF neighbor holds the VRF's selected route among the
+    destinations (rd, x) iff one exists -/
+def CEViewExact (t : Tbl) (vr : Vrf) (v : LView) : Prop :=
+  ∀ x, v x = (pickBest (vrfCands t vr x)).map (·.marker)
+
+/-- table + what one VRF neighbor holds, driven by table updates (the code's per-destination fan-out) -/
+structure CESys where
+  t : Tbl
+  v : LView
+
+def CESys.init : CESys := ⟨Tbl.empty, fun _ => none⟩
+
+def CESys.step (vr : Vrf) (x : CESys) (p : VPath) (wd : Bool) : CESys :=
+  ⟨x.t.update p wd, x.v.apply (ceOnTableChange vr (x.t.dest p.nlri) ((x.t.update p wd).dest p.nlri))⟩
+
+def CESys.run (vr : Vrf) (evs : List (VPath × Bool)) : CESys :=
+  evs.foldl (fun x e => x.step vr e.1 e.2) CESys.init
+
 /-- every prefix occurs under one RD only among the NLRIs `ns` -/
 def PfxInj (ns : List (Nat × Nat)) : Prop := ∀ n n', n ∈ ns → n' ∈ ns → n.2 = n'.2 → n = n'
 
@@ -108,5 +143,11 @@ def Sys.step (x : Sys) : Ev → Sys
 inductive SysReach : Sys → Prop where
   | init : SysReach Sys.init
   | step (x : Sys) (e : Ev) : SysReach x → (∀ p, e = Ev.upd p false → Fresh x.t p) → SysReach (x.step e)
+
+/-- histories in which a prefix never occurs under two RDs -/
+inductive CEReachUniq (vr : Vrf) : CESys → Prop where
+  | init : CEReachUniq vr CESys.init
+  | step (x : CESys) (p : VPath) (wd : Bool) : CEReachUniq vr x → (wd = false → Fresh x.t p) →
+      PfxInj (x.t.update p wd).nlris → CEReachUniq vr (x.step vr p wd)
 
 end VrfRtc
